@@ -131,16 +131,22 @@ Section RT.
     Variable recS : pyval -> res pyval.
     Variable recD : bool -> pystr -> pyval -> res pyval.
 
-    (* a stored value of a plain scalar declaration; the elements of a tuple against its item declarations: positions
-       beyond the declared ones (a homogeneous Tuple[T] holding more than one element) are appended RAW by the
-       deserializer, so they must be JSON scalars already *)
+    (* a stored value of a plain scalar declaration; the elements of a tuple against its item declarations: a Tuple
+       with ONE item declaration holds any number of elements of it (none included); otherwise element i stands
+       against declaration i (positions beyond the declared ones are appended RAW by the deserializer, so they must
+       be JSON scalars already) *)
     Definition wfv_plain (g : field) (x : pyval) : Prop :=
       validate_weak re_match e g x = Ok tt /\ json_scalar x = true /\ x <> PNone.
-    Fixpoint tuple_wf (gs : list field) (xs : list pyval) : Prop :=
+    Fixpoint tuple_pos_wf (gs : list field) (xs : list pyval) : Prop :=
       match gs, xs with
       | [], _ => Forall (fun x => json_scalar x = true /\ x <> PNone) xs
       | _ :: _, [] => False
-      | g :: gs', x :: xs' => wfv_plain g x /\ tuple_wf gs' xs'
+      | g :: gs', x :: xs' => wfv_plain g x /\ tuple_pos_wf gs' xs'
+      end.
+    Definition tuple_wf (gs : list field) (xs : list pyval) : Prop :=
+      match gs with
+      | [g] => Forall (wfv_plain g) xs
+      | _ => tuple_pos_wf gs xs
       end.
 
     (* "this option does not match, try the next one": any Python exception, of whatever class *)
@@ -271,20 +277,29 @@ Section RT.
       - (* FTuple *)
         cbn [frag] in Hf. cbn [wfv] in Hw. destruct Hw as (l & -> & Hl).
         (* every element is a JSON scalar: serialized as it is, with or without its declaration *)
-        assert (Hsc : forall gs xs, tuple_wf gs xs -> Forall (fun x => json_scalar x = true /\ x <> PNone) xs).
-        { induction gs as [|g gs IHg]; intros [|x xs] Hw; cbn [tuple_wf] in Hw; auto; try contradiction.
+        assert (Hsc : forall gs xs, tuple_pos_wf gs xs -> Forall (fun x => json_scalar x = true /\ x <> PNone) xs).
+        { induction gs as [|g gs IHg]; intros [|x xs] Hw; cbn [tuple_pos_wf] in Hw; auto; try contradiction.
           destruct Hw as ((_ & Ha & Hb) & Hw). constructor; auto. }
+        assert (Hsc1 : forall g xs, Forall (wfv_plain g) xs -> Forall (fun x => json_scalar x = true /\ x <> PNone) xs).
+        { intros g xs Hx. eapply Forall_impl; [|exact Hx]. intros x (_ & Ha & Hb). auto. }
         assert (Hany : forall xs, Forall (fun x => json_scalar x = true /\ x <> PNone) xs -> mapR (ser_any recS) xs = Ok xs).
         { induction 1 as [|x xs (Ha & _) _ IHx]; [reflexivity|]. cbn [mapR]. rewrite IHx.
           destruct x as [| | [] | | | | | | | | |]; try discriminate; reflexivity. }
-        pose proof (Hsc _ _ Hl) as Hall.
+        assert (Hall : Forall (fun x => json_scalar x = true /\ x <> PNone) l).
+        { unfold tuple_wf in Hl. destruct fs as [|g0 [|g1 fs']];
+            [exact (Hsc _ _ Hl) | exact (Hsc1 _ _ Hl) | exact (Hsc _ _ Hl)]. }
         exists (PList l). unfold rt_goal. cbn [ser_val unless_none ser_plain_seq ser_each iter_items].
         rewrite (Hany l Hall). cbn [bind]. split; [reflexivity|]. split.
         { cbn [json_pure]. apply forallb_forall. intros y Hy. rewrite Forall_forall in Hall.
           apply json_scalar_pure. apply Hall. exact Hy. }
         split; [discriminate|].
         intros ku ign.
-        assert (Hpos : forall gs xs, forallb plain_scalar gs = true -> tuple_wf gs xs ->
+        assert (Hone : forall g x, plain_scalar g = true -> wfv_plain g x ->
+                  deser_val re_match e ens recD ku false g x = Ok x).
+        { intros g x Hp Hx. destruct (rt_plain g x Hp) as [(jx & Hs1 & _ & _ & Hd1) Hsx].
+          { destruct g; try discriminate; exact Hx. }
+          rewrite Hsx in Hs1. inversion Hs1; subst jx. apply Hd1. }
+        assert (Hpos : forall gs xs, forallb plain_scalar gs = true -> tuple_pos_wf gs xs ->
                   (fix pos (fs0 : list field) (vs : list pyval) {struct fs0} : res (list pyval) :=
                      match fs0 with
                      | [] => Ok vs
@@ -298,30 +313,46 @@ Section RT.
                      end) gs xs = Ok xs).
         { induction gs as [|g gs IHg]; intros xs Hp Hw; [reflexivity|].
           cbn [forallb] in Hp. apply andb_true_iff in Hp as [Hp1 Hp2].
-          destruct xs as [|x xs]; cbn [tuple_wf] in Hw; [contradiction|]. destruct Hw as (Hx & Hw).
-          destruct (rt_plain g x Hp1) as [(jx & Hs1 & _ & _ & Hd1) Hsx].
-          { destruct g; try discriminate; exact Hx. }
-          rewrite Hsx in Hs1. inversion Hs1; subst jx.
-          rewrite Hd1. cbn [rewrap bind]. rewrite (IHg xs Hp2 Hw). reflexivity. }
-        destruct ign; cbn [deser_val list_like]; cbn beta iota zeta; rewrite (Hpos fs l Hf Hl); reflexivity.
+          destruct xs as [|x xs]; cbn [tuple_pos_wf] in Hw; [contradiction|]. destruct Hw as (Hx & Hw).
+          rewrite (Hone g x Hp1 Hx). cbn [rewrap bind]. rewrite (IHg xs Hp2 Hw). reflexivity. }
+        assert (Hlen : forall gs xs, tuple_pos_wf gs xs -> (length xs <? length gs)%nat = false).
+        { induction gs as [|g gs IHg]; intros xs Hw; [reflexivity|].
+          destruct xs as [|x xs]; cbn [tuple_pos_wf] in Hw; [contradiction|]. destruct Hw as (_ & Hw).
+          exact (IHg xs Hw). }
+        assert (Heach : forall g xs, plain_scalar g = true -> Forall (wfv_plain g) xs ->
+                  mapR (fun x => rewrap (deser_val re_match e ens recD ku false g x)) xs = Ok xs).
+        { intros g xs Hp. induction 1 as [|x xs Hx _ IHx]; [reflexivity|].
+          cbn [mapR]. rewrite (Hone g x Hp Hx). cbn [rewrap]. rewrite IHx. reflexivity. }
+        unfold tuple_wf in Hl. destruct fs as [|g0 [|g1 fs']].
+        + destruct ign; reflexivity.
+        + cbn [forallb] in Hf. apply andb_true_iff in Hf as [Hf _].
+          destruct ign; cbn [deser_val list_like]; cbn beta iota zeta; rewrite (Heach g0 l Hf Hl); reflexivity.
+        + destruct ign; cbn [deser_val list_like]; cbn beta iota zeta;
+            rewrite (Hlen _ _ Hl), (Hpos _ l Hf Hl); reflexivity.
       - (* FMapKV *)
         cbn [frag] in Hf. apply andb_true_iff in Hf as [Hk Hv].
         destruct Hw as (kv & -> & Hkv & Hfresh).
         set (sf := fun p : pyval * pyval =>
                      k' <- ser_val re_match e ens recS f1 (fst p) ;;
                      v' <- ser_val re_match e ens recS f2 (snd p) ;; Ok (k', v')).
-        set (df := fun p : pyval * pyval =>
-                     k' <- deser_val re_match e ens recD true false f1 (fst p) ;;
-                     v' <- deser_val re_match e ens recD true false f2 (snd p) ;; Ok (k', v')).
-        destruct (mapR_rt sf df (fun q => json_scalar (fst q) = true /\ json_pure (snd q) = true) kv)
-          as (r & H1 & H2 & H3).
-        { eapply Forall_impl; [|exact Hkv]. intros [k x] [Hwk Hwx]. cbn [fst snd] in *.
+        set (df := fun ku (p : pyval * pyval) =>
+                     k' <- deser_val re_match e ens recD ku false f1 (fst p) ;;
+                     v' <- deser_val re_match e ens recD ku false f2 (snd p) ;; Ok (k', v')).
+        assert (HF : forall ku, exists r, mapR sf kv = Ok r /\
+                       Forall (fun q => json_scalar (fst q) = true /\ json_pure (snd q) = true) r /\
+                       mapR (df ku) r = Ok kv).
+        { intro ku. apply (mapR_rt sf (df ku) (fun q => json_scalar (fst q) = true /\ json_pure (snd q) = true) kv).
+          eapply Forall_impl; [|exact Hkv]. intros [k x] [Hwk Hwx]. cbn [fst snd] in *.
           destruct (rt_plain f1 k Hk Hwk) as [(jk & Hs1 & _ & _ & Hd1) Hsk].
           rewrite Hsk in Hs1. inversion Hs1; subst jk.
           destruct (IHf2 Hv x Hwx) as (j & Hs2 & Hp2 & _ & Hd2).
           exists (k, j). unfold sf, df. cbn [fst snd]. rewrite Hsk, Hs2, Hd1, Hd2. cbn [bind].
           repeat split; auto.
           destruct f1; try discriminate; destruct Hwk as (_ & Hs & _); exact Hs. }
+        destruct (HF true) as (r & H1 & H2 & H3).
+        destruct (HF false) as (r' & H1' & _ & H3').
+        rewrite H1 in H1'. inversion H1'; subst r'.
+        unfold df in H3, H3'. cbn beta in H3, H3'.
         (* the serialized keys are the original keys *)
         assert (Hkeys0 : forall kv0, Forall (fun p => wfv f1 (fst p) /\ wfv f2 (snd p)) kv0 ->
                                      forall r0, mapR sf kv0 = Ok r0 -> map fst r0 = map fst kv0).
@@ -350,7 +381,7 @@ Section RT.
         { cbn [json_pure]. apply forallb_forall. intros q Hq. rewrite Forall_forall in H2.
           destruct (H2 _ Hq) as [Ha Hb]. now rewrite Ha, Hb. }
         split; [discriminate|].
-        intros ku ign. destruct ign; cbn [deser_val]; cbn beta iota; fold df; rewrite H3; cbn [bind];
+        intros ku ign. destruct ku, ign; cbn [deser_val]; cbn beta iota; rewrite ?H3, ?H3'; cbn [bind];
           rewrite Hhash2, dict_of_pairs_fresh by (cbn [map]; exact Hfresh); reflexivity.
       - (* FAnyOf *)
         rename H into IHfs. destruct Hw as (Hnn & i & Hsat & HskS).
